@@ -341,6 +341,13 @@ class WorkflowRecovery:
                             )
                         )
                 elif not_started_tasks and stage.start_time is not None:
+                    if any(not b.status.is_complete for b in stage.before_stages()):
+                        # Before-stages are still in flight: they are recovered
+                        # on their own and start this stage's first task via
+                        # ContinueParentStage when they finish. Starting it
+                        # here would run the task ahead of its before-stages
+                        # and leave the stage without a final CompleteStage.
+                        continue
                     first_task = not_started_tasks[0]
                     # Mirror the running-task guard: skip if a message for this
                     # task is already queued, so a recovery sweep overlapping
